@@ -456,8 +456,8 @@ func init() {
 	replaceOutside("C09", "real protobuf / JSON codecs and gzip", "real protobuf codec; gzip streams with symbolic bytes")
 	replaceOutside("C13", "data-race freedom, true concurrency, gzip pools", "data-race freedom, true concurrency, the proxy's stream pumps: no goroutine model (N/A part, stated); pooled-buffer aliasing and pooled gzip reader / writer reuse are decided across consecutive requests")
 
-	typed := "typed path variables through ServeHTTP: int32 (every plain ASCII capture of 1..2 bytes, so 0 and -0 are included), bool (false / true / 0 / False) and a field with a distinct JSON name, each with and without a rival query parameter naming the same field (by proto or JSON name)"
-	ext("C07", typed, HarnessSpec{Name: "VerifH_serveHTTP_typed", Covers: []string{"zero-capture-with-rival", "rival-by-json-name", "query-rival", "int", "bool", "oneof-member"}})
+	typed := "typed path variables through ServeHTTP: int32 (every plain ASCII capture of 1..2 bytes, so 0 and -0 are included), bool (false / true / 0 / False) and a field with a distinct JSON name, each with and without a rival query parameter naming the same field (by proto or JSON name); path variables bound to well-known message types (Int32Value with captures 0 and 5, FieldMask) with a rival query value"
+	ext("C07", typed, HarnessSpec{Name: "VerifH_serveHTTP_typed", Covers: []string{"zero-capture-with-rival", "rival-by-json-name", "query-rival", "int", "bool", "oneof-member", "wkt-wrapper", "wkt-fieldmask"}})
 	ext("C01", typed, HarnessSpec{Name: "VerifH_serveHTTP_typed", Covers: []string{"int", "bool", "int-rejected", "bool-rejected", "json-name-field"}})
 	ext("C03", typed, HarnessSpec{Name: "VerifH_serveHTTP_typed", Covers: []string{"int", "bool", "int-rejected", "bool-rejected"}})
 
